@@ -106,7 +106,10 @@ def join_case(draw):
         if c == 5:
             return ["fn", draw(st.sampled_from(["Coalesce", "Upper", "Sum"])), [operand(depth - 1)] + ([["raw", 0]] if False else [])] if True else f
         if c == 6:
-            return [draw(st.sampled_from(["add", "sub", "mul"])), operand(depth - 1), draw(st.one_of(st.just(["raw", 1]), st.just(fld(pool_for_crit))))]
+            left = operand(depth - 1)
+            if left[0] == "subq":
+                left = fld(pool_for_crit)  # QueryBuilder overloads + - * as set operations: a subquery is never the left operand of arithmetic
+            return [draw(st.sampled_from(["add", "sub", "mul"])), left, draw(st.one_of(st.just(["raw", 1]), st.just(fld(pool_for_crit))))]
         if c == 7:
             return ["case", [[["eq", fld(pool_for_crit), ["raw", 1]], operand(depth - 1)]], ["raw", 0]]
         if c == 8:
@@ -480,6 +483,9 @@ def valid_case(case):
 def _buildable(case):
     if case["mode"] != "on":
         return True
+    txt = json.dumps(case["crit"])
+    if any(('["%s", ["subq"' % op) in txt for op in ("add", "sub", "mul", "eq", "ne")):
+        return False
     try:
         prog.build_arg(case["crit"], prog.Env(case["cls"], POOL))
         return True
